@@ -103,7 +103,9 @@ def nestedCase : P String := do
     match runSteps (mkScript es) c qmax fuel h s0 [] with
     | none => pure "oof"
     | some (s, confs) =>
-      let g := if C02.project c s.log = s.glog then "ok" else "diff"
+      let gs := C02.grun c (C02.G.init c s0.conf) s.glog
+      let g := if C02.project c s.log ≠ s.glog then "diff"
+        else if !(C02.invOK c gs s.conf) then "inv" else "ok"
       pure s!"T {joinNats (encItems s.log)} C {joinNats (encSVal (buildStateList [] s0.conf) ++ confs.flatten)} G {g}"
 
 /-- debugging aid: the model's ghost log and the projection of its item log, printed -/
